@@ -37,7 +37,7 @@ SEMIRINGS = ["Float", "Float", "Boolean", "Real", "Log", "MaxPlus", "MaxTimes", 
 
 
 def plan(tier, seed):
-    return common.add_m9_shard(common.plan_shards(tier, seed, n_quick=60, n_thorough=400, budget_quick=35, budget_thorough=420, ties=True), tier)
+    return common.add_m9_shard(common.plan_shards(tier, seed, n_quick=60, n_thorough=800, budget_quick=35, budget_thorough=420, ties=True), tier)
 
 
 def gates(tier):
